@@ -18,7 +18,12 @@ from typing import Dict, List, Optional, Sequence, Tuple
 warnings.filterwarnings("ignore")
 logging.disable(logging.CRITICAL)
 
-SAMPLE_DATA = "/repo/perception_eval/test/sample_data"
+def _repo_root() -> str:
+    r = os.environ.get("PEVAL_REPO") or "/repo"
+    return r if os.path.isdir(os.path.join(r, "perception_eval")) else "/repo"
+
+
+SAMPLE_DATA = os.path.join(_repo_root(), "perception_eval", "test", "sample_data")
 _TMP_DIRS: List[str] = []
 
 
